@@ -177,8 +177,7 @@ int main (void)
       phex (id);
     }
     else if (!strcmp (op, "unregister")) {
-      sc_package_set_abort_alloc_mismatch ((int) a[1], 0);
-      sc_package_unregister ((int) a[1]);
+      sc_package_unregister ((int) a[1]);        /* aborts if the package is not balanced */
       fputs ("-", stdout);
     }
     else if (!strcmp (op, "isreg")) { printf ("%x", sc_package_is_registered ((int) a[1]) ? 1 : 0); }
